@@ -130,8 +130,14 @@ void check_all_handles(const std::string& oracle, const std::string& site, const
 
 void after_mutation(const Step& s, const std::string& what) {
 	api_end();
-	api_end();
-	if (armed("C11")) { count(c_oracle_evals); check_all_handles("C11.handle-equals-model", hsite(s), what); }
+	if (armed("C11")) {
+		count(c_oracle_evals); check_all_handles("C11.handle-equals-model", hsite(s), what);
+		// non-trivial: the world holds handles that share storage (same provenance) while one of them was touched
+		std::map<uint64_t, int> groups; uint64_t h = hash_str(what);
+		for (auto& c : g_clients) for (auto& e : c.et) { ++groups[e.origin]; h = mix64(h, e.model.hash()); }
+		bool sharing = false; for (auto& g : groups) if (g.second > 1) sharing = true;
+		if (sharing) note_case(h);
+	}
 }
 
 void drop_iters_of(Client& c, const ET* aut) {
